@@ -26,7 +26,15 @@ func compileTypeCast(
 	if !targetType.IsValid() {
 		return types.Type{}, errors.New("unknown cast target type")
 	}
-	sourceType, err := Compile(context.Child(ctx, ctx.AST.Expression()).WithHint(targetType))
+	// The cast's target type is only a hint for a lone (possibly negated) literal
+	// operand (`i8(5)` compiles straight to an i8 constant). For any other operand
+	// the hint would leak into the operand's own leading literal (`i64(2 + a)` with
+	// a of type i8), whose type is decided by its siblings, not by the cast.
+	exprCtx := context.Child(ctx, ctx.AST.Expression()).WithHint(types.Type{})
+	if parser.GetLiteral(ctx.AST.Expression()) != nil {
+		exprCtx = exprCtx.WithHint(targetType)
+	}
+	sourceType, err := Compile(exprCtx)
 	if err != nil {
 		return types.Type{}, err
 	}
